@@ -3,6 +3,7 @@ package main
 import (
 	"fmt"
 	"sort"
+	"strings"
 	"time"
 
 	"github.com/openGemini/openGemini/lib/util/lifted/influx/meta"
@@ -36,6 +37,11 @@ type Monitor struct {
 	missing    map[string]string // db/default-policy -> command after which it was first missing
 	wasDeleted map[uint64]bool   // shard groups that were seen marked deleted
 	revived    map[uint64]bool   // ... and later seen live again (DeleteShardGroup with CancelDelete)
+	// versioned measurement names (db/rp/name_0001) ever handed out inside the CURRENT incarnation
+	// of their policy (forgotten when the policy or its database disappears), and those present
+	// in the previous state
+	everNames map[string]bool
+	prevNames map[string]bool
 	// PrunedInLive counts (state, shard) observations of a MarkDelete shard in a live group
 	PrunedInLive int64
 }
@@ -50,7 +56,7 @@ func (m *Monitor) firstMissing(key, cmd string) string {
 
 func NewMonitor() *Monitor {
 	return &Monitor{ever: map[string]map[uint64]bool{}, prev: map[string]map[uint64]bool{}, birth: map[uint64]birth{}, missing: map[string]string{},
-		wasDeleted: map[uint64]bool{}, revived: map[uint64]bool{}}
+		wasDeleted: map[uint64]bool{}, revived: map[uint64]bool{}, everNames: map[string]bool{}, prevNames: map[string]bool{}}
 }
 
 // Fork copies the monitor (for prefix sharing in the exhaustive walk).
@@ -72,6 +78,12 @@ func (m *Monitor) Fork() *Monitor {
 	}
 	for k, b := range m.birth {
 		n.birth[k] = b
+	}
+	for k := range m.everNames {
+		n.everNames[k] = true
+	}
+	for k := range m.prevNames {
+		n.prevNames[k] = true
 	}
 	for k, b := range m.missing {
 		n.missing[k] = b
@@ -104,6 +116,7 @@ func (m *Monitor) Check(d *meta.Data, lastCmd string) []Issue {
 	add := func(sig, format string, a ...any) {
 		out = append(out, Issue{sig, fmt.Sprintf(format, a...)})
 	}
+	curNames, curScopes := map[string]bool{}, map[string]bool{}
 	cur := map[string]map[uint64]bool{"measurement": {}, "shard-group": {}, "shard": {}, "index-group": {}, "index": {}}
 	seen := func(kind string, id uint64, where string) {
 		if cur[kind][id] {
@@ -143,7 +156,9 @@ func (m *Monitor) Check(d *meta.Data, lastCmd string) []Issue {
 					add("name-key-mismatch/measurement", "%s: measurement stored under key %q is named %q", where, mn, ms.Name)
 				}
 				seen("measurement", ms.ID, where+"."+mn)
+				curNames[dbName+"/"+rpName+"/"+mn] = true
 			}
+			curScopes[dbName+"/"+rpName+"/"] = true
 			for _, on := range sortedKeys(rp.MstVersions) {
 				if v := rp.MstVersions[on]; rp.Measurements[v.NameWithVersion] == nil {
 					// the current version may have been dropped (DROP MEASUREMENT completes); the
@@ -267,6 +282,20 @@ func (m *Monitor) Check(d *meta.Data, lastCmd string) []Issue {
 			}
 		}
 	}
+	// versioned measurement names never handed out twice while their policy lives: the version
+	// suffix is what tells two incarnations of a measurement name apart on the stores
+	for n := range m.everNames {
+		if i := strings.LastIndexByte(n, '/'); i >= 0 && !curScopes[n[:i+1]] {
+			delete(m.everNames, n) // the policy (or its database) is gone: a new one starts afresh
+		}
+	}
+	for _, n := range sortedKeys(curNames) {
+		if !m.prevNames[n] && m.everNames[n] {
+			add("id-reissued/measurement-versioned-name", "the versioned measurement name %s was handed out again after the measurement that held it had been dropped", n)
+		}
+		m.everNames[n] = true
+	}
+	m.prevNames = curNames
 	// ids never handed out twice
 	for kind, ids := range cur {
 		ever := m.ever[kind]
